@@ -604,6 +604,7 @@ func FromAllocation(alloc channel.Allocation) (protoAlloc *Allocation, err error
 			return nil, errors.WithMessagef(err, "%d'th sub alloc", i)
 		}
 	}
+	protoAlloc.Locked = locked
 	protoAlloc.Balances, err = FromBalances(alloc.Balances)
 	return protoAlloc, err
 }
